@@ -33,6 +33,14 @@ def main():
             continue
         prop = sd.split("-")[0]
         patch = os.path.join(VERIF, "seeded", sd, "patch.diff")
+        try:
+            st = json.load(open(os.path.join(VERIF, "seeded", sd, "meta.json"))).get("status", "")
+        except Exception:
+            st = ""
+        if st.startswith("retired") or st.startswith("neutralized"):
+            rows.append((sd, st, ""))
+            print(rows[-1], flush=True)
+            continue
         sh("git -C %s checkout -q -- . && git -C %s clean -fdq" % (SCRATCH, SCRATCH))
         a = sh("git -C %s apply %s" % (SCRATCH, patch))
         if a.returncode != 0:
